@@ -597,7 +597,7 @@ def op_st(draw, names):
     elif name == 'reverse':
         op['win'] = draw(win_spec())
     elif name in ('rol', 'ror'):
-        op['bits'] = draw(st.sampled_from([0, 1, 2, 3, 7, 8, 9, 63, 64, 65, -1, 1000]) | st.integers(-2, 300))
+        op['bits'] = draw(st.sampled_from([0, 1, 2, 3, 7, 8, 9, 63, 64, 65, -1, 1000, 2 ** 31 + 1, 2 ** 63 + 5, 2 ** 64 + 3, 2 ** 100 + 7, -2 ** 64]) | st.integers(-2, 300))
         op['win'] = draw(win_spec()) if draw(st.booleans()) else ['p', ['n'], ['n']]
     elif name in ('set', 'invert'):
         if name == 'set':
@@ -629,7 +629,7 @@ def op_st(draw, names):
         op['win'] = draw(win_spec()) if draw(st.integers(0, 2)) else ['p', ['n'], ['n']]
         op['repeat'] = draw(st.sampled_from([True, True, False]))
     elif name in ('ilshift', 'irshift'):
-        op['n'] = draw(st.sampled_from([0, 1, 2, 7, 8, 9, 63, 64, 65, -1, 10000]) | st.integers(-2, 300))
+        op['n'] = draw(st.sampled_from([0, 1, 2, 7, 8, 9, 63, 64, 65, -1, 10000, 2 ** 31, 2 ** 63, 2 ** 64 + 1, 2 ** 100, -2 ** 64]) | st.integers(-2, 300))
     elif name == 'imul':
         op['n'] = draw(st.sampled_from([0, 1, 2, 3, 4, 5, 7, 8, 9, -1]))
     elif name in ('iand', 'ior', 'ixor'):
